@@ -141,15 +141,36 @@ def diff(a, b, limit=6):
     return out
 
 
+_PRIO = ['ObjectType', 'ScalarType', 'Property', 'Link', 'Constraint', 'Index',
+         'AnnotationValue', 'Annotation', 'Global', 'Alias', 'Function',
+         'AccessPolicy', 'Trigger', 'Rewrite']
+
+
+def _prio(key):
+    try:
+        return _PRIO.index(key[0])
+    except ValueError:
+        return len(_PRIO)
+
+
 def first_diff_sig(a, b):
-    """root-cause signature: (object class, field) of the first difference"""
-    for k in sorted(set(a) | set(b), key=repr):
+    """root-cause signature: (object class, field) of the most significant
+    difference (user-visible object classes first, so that differences on
+    derived objects do not hide a difference on the types themselves)"""
+    cands = []
+    for k in set(a) | set(b):
         if k not in a:
-            return f'extra:{k[0]}'
-        if k not in b:
-            return f'missing:{k[0]}'
-        if a[k] != b[k]:
+            cands.append((_prio(k), repr(k), f'extra:{k[0]}'))
+        elif k not in b:
+            cands.append((_prio(k), repr(k), f'missing:{k[0]}'))
+        elif a[k] != b[k]:
             for f in sorted(set(a[k]) | set(b[k])):
                 if a[k].get(f) != b[k].get(f):
-                    return f'field:{k[0]}.{f}'
-    return None
+                    # implicit pointers (__type__, id) are derived objects
+                    derived = '__type__' in k[1] or '||id&' in k[1] or '|id@' in k[1]
+                    cands.append((_prio(k) + (20 if derived else 0), repr(k),
+                                  f'field:{k[0]}.{f}' + ('(implicit)' if derived else '')))
+                    break
+    if not cands:
+        return None
+    return min(cands)[2]
